@@ -4,7 +4,6 @@ package main
 
 import (
 	"fmt"
-	"go/ast"
 	"go/token"
 	"go/types"
 	"strings"
@@ -60,77 +59,6 @@ func c13MethodCalls(fn *ssa.Function, names ...string) []ssa.Instruction {
 		}
 		return false
 	})
-}
-
-// c13CalleeOf resolves the called function object of an AST call expression.
-func c13CalleeOf(e ast.Expr, info *types.Info) *types.Func {
-	call, ok := ast.Unparen(e).(*ast.CallExpr)
-	if !ok {
-		return nil
-	}
-	var id *ast.Ident
-	switch f := ast.Unparen(call.Fun).(type) {
-	case *ast.Ident:
-		id = f
-	case *ast.SelectorExpr:
-		id = f.Sel
-	}
-	if id == nil {
-		return nil
-	}
-	fo, _ := info.Uses[id].(*types.Func)
-	return fo
-}
-
-// c13NilCmpAtoms builds an AtomFn: `f(...) == nil` → names[f], `f(...) != nil`
-// → "!"+names[f], and a bare boolean call g(...) → boolNames[g].
-func c13NilCmpAtoms(errFns map[*types.Func]string, boolFns map[*types.Func]string) AtomFn {
-	look := func(m map[*types.Func]string, fo *types.Func) string {
-		if fo == nil {
-			return ""
-		}
-		for k, v := range m {
-			if sameFunc(k, fo) {
-				return v
-			}
-		}
-		return ""
-	}
-	return func(e ast.Expr, info *types.Info) string {
-		e = ast.Unparen(e)
-		if be, ok := e.(*ast.BinaryExpr); ok && (be.Op == token.EQL || be.Op == token.NEQ) {
-			x, y := ast.Unparen(be.X), ast.Unparen(be.Y)
-			if id, ok := x.(*ast.Ident); ok && id.Name == "nil" {
-				x, y = y, x
-			}
-			if id, ok := y.(*ast.Ident); ok && id.Name == "nil" {
-				if n := look(errFns, c13CalleeOf(x, info)); n != "" {
-					if be.Op == token.EQL {
-						return n
-					}
-					return "!" + n
-				}
-			}
-			return ""
-		}
-		if n := look(boolFns, c13CalleeOf(e, info)); n != "" {
-			return n
-		}
-		return ""
-	}
-}
-
-// c13SingleReturnExpr returns the only result expression of a function whose
-// body is a single `return <expr>`.
-func c13SingleReturnExpr(fd *ast.FuncDecl) ast.Expr {
-	if fd == nil || fd.Body == nil || len(fd.Body.List) != 1 {
-		return nil
-	}
-	rs, ok := fd.Body.List[0].(*ast.ReturnStmt)
-	if !ok || len(rs.Results) != 1 {
-		return nil
-	}
-	return rs.Results[0]
 }
 
 // c13ErrorsIs: `errors.Is(<x>, <global sentinel>)` call description.
@@ -275,4 +203,41 @@ func (c *Ctx) c13ConstBoolFlag(v ssa.Value, setWhen Barrier, top *ssa.Function) 
 		}
 	}
 	return true
+}
+
+// c13OnlyReachedFrom: fn is a same-package function whose every in-module use
+// is a plain call from root or from functions that are themselves only reached
+// from root (a helper extracted from root).
+func (c *Ctx) c13OnlyReachedFrom(fn, root *ssa.Function, memo map[*ssa.Function]bool, depth int) bool {
+	if fn == root {
+		return true
+	}
+	if v, ok := memo[fn]; ok {
+		return v
+	}
+	memo[fn] = false
+	fo := funcObjOf(fn)
+	if fo == nil || depth > 3 || fnPkg(fn) != fnPkg(root) {
+		return false
+	}
+	sites := c.CallSites(fo)
+	if len(sites) == 0 {
+		return false
+	}
+	for _, s := range sites {
+		if s.Kind != "call" {
+			return false
+		}
+		if !c.c13OnlyReachedFrom(TopLevel(s.Fn), root, memo, depth+1) {
+			return false
+		}
+	}
+	memo[fn] = true
+	return true
+}
+
+// c13OnCmp is OnCmp made phi-aware (the comparison may reach the branch through
+// a boolean local): see c09CmpBarrier.
+func c13OnCmp(name string, lhs Pat, op token.Token, rhs Pat, holds bool) Barrier {
+	return c09CmpBarrier(name, holds, c09Cmp{lhs, op, rhs})
 }
